@@ -287,10 +287,11 @@ def _out(f, *a):
     return {"nonbool": repr(r)}
 
 
-def _drain(gen):
+def _drain(thunk):
+    """the values a (lazy) run yields and the exception that ended it; `thunk()` makes the generator"""
     kept, stop = [], None
     try:
-        for v in gen:
+        for v in thunk():
             kept.append(_unvalue(v))
     except Exception as e:  # noqa: BLE001
         stop = exc_name(e)
@@ -758,8 +759,18 @@ def _keyfn_table():
             "keyerr": keyerr, "sign": sign}
 
 
+def _arg_items(x):
+    """the strings of a group_by / merge argument in its JSON form: "s" -> ["s"]; [..] (a tuple) and {"list": [..]} (a
+    list) -> the items; {"notiter": true} (a callable) -> None"""
+    if isinstance(x, dict):
+        return list(x["list"]) if "list" in x else None
+    return [x] if isinstance(x, str) else list(x)
+
+
 def _gb_arg(x):
     if isinstance(x, dict):
+        if "list" in x:
+            return list(x["list"])
         return lambda val: 0          # group_by "is no longer a function"
     return tuple(x) if isinstance(x, list) else x
 
@@ -781,7 +792,7 @@ def run_impl(case):
             return {"init": exc_name(e)}
         vals = [_value(v) for v in case["values"]]
         r = [_out(sel, v) for v in vals]
-        kept, stop = _drain(flt.run(iter(vals)))
+        kept, stop = _drain(lambda: flt.run(iter(vals)))
 
         # fill_into: the element is filled exactly with the selected values
         class _Store:
@@ -812,15 +823,15 @@ def run_impl(case):
         except Exception as e:  # noqa: BLE001
             return {"init": exc_name(e)}
         vals = [_value(v) for v in case["values"]]
-        kept, stop = _drain(seq.run(iter(vals)))
-        kept2, stop2 = _drain(both.run(iter([_value(v) for v in case["values"]])))
+        kept, stop = _drain(lambda: seq.run(iter(vals)))
+        kept2, stop2 = _drain(lambda: both.run(iter([_value(v) for v in case["values"]])))
         return {"kept": kept, "stop": stop, "and": {"kept": kept2, "stop": stop2}}
     if op == "runif":
         try:
             el = lena.flow.RunIf(_build(case["spec"]), *_seq_args(case["seq"]))
         except Exception as e:  # noqa: BLE001
             return {"init": exc_name(e)}
-        kept, stop = _drain(el.run(iter([_value(v) for v in case["values"]])))
+        kept, stop = _drain(lambda: el.run(iter([_value(v) for v in case["values"]])))
         return {"kept": kept, "stop": stop}
     if op == "groupby":
         try:
@@ -955,9 +966,7 @@ def model_requests(case):
         for c in cs:
             _keys_of_ctx(c, names)
         for arg in (case["group_by"], case["merge"]):
-            if isinstance(arg, dict):
-                continue
-            for key in ([arg] if isinstance(arg, str) else arg):
+            for key in _arg_items(arg) or []:
                 names.update(key.split("."))
         return [{"op": "groupby", "names": sorted(names), "group_by": case["group_by"], "merge": case["merge"],
                  "contexts": [_unmk(c) for c in cs], "via": case.get("via", "fill"), "end": case.get("end", "reset")}]
@@ -1218,20 +1227,56 @@ def _ref_filter_value(spec, v):
 
 def _split_paths(arg):
     out = set()
-    if isinstance(arg, dict):
-        return out
-    for key in ([arg] if isinstance(arg, str) else arg):
+    for key in _arg_items(arg) or []:
         out.add(() if key == "" else tuple(key.split(".")))
     return out
 
 
+def _gm(case):
+    """the key paths listed in group_by and in merge, after the adjustment of the default arguments"""
+    if case["group_by"] == "" and case["merge"] == "":
+        return set(), {()}          # GroupBy(): everything into one group
+    return _split_paths(case["group_by"]), _split_paths(case["merge"])
+
+
+def _ref_rejects(G, M):
+    """the documented nesting rule ("include/exclude keys should be strictly within exclude/include keys"): some
+    listed path runs through a key path q whose parent already has that polarity while nothing of the opposite set
+    runs through q"""
+    for p in G | M:
+        for n in range(1, len(p) + 1):
+            q = p[:n]
+            c = _flipwalk(G, M, q[:-1])
+            same, opp = (G, M) if c else (M, G)
+            if any(x[:n] == q for x in same) and not any(x[:n] == q for x in opp):
+                return True
+    return False
+
+
+def _ref_gb_init(case):
+    """what the documentation says GroupBy(group_by, merge) does at construction: None = accepted, else the exception"""
+    gi, mi = _arg_items(case["group_by"]), _arg_items(case["merge"])
+    if gi is None or mi is None:
+        return "LenaTypeError"      # "group_by and merge should be strings or containers of strings"
+    G, M = _gm(case)
+    if (() in G) + (() in M) != 1:
+        return "LenaValueError"     # the root must be in exactly one of them
+    if not (case["group_by"] == "" and case["merge"] == ""):
+        for key in gi + mi:
+            if key != "" and "" in key.split("."):
+                return "LenaValueError"     # improper subkey
+    if _ref_rejects(G, M):
+        return "LenaValueError"
+    return None
+
+
 def _polarity(G, M, p):
-    """is the longest prefix of p listed in group_by or merge a group_by entry?"""
+    """is the longest prefix of p listed in group_by or merge a group_by entry?  (None: not even the root is listed)"""
     for n in range(len(p), -1, -1):
         q = p[:n]
         if q in G or q in M:
             return q in G
-    raise AssertionError("no root")
+    return None
 
 
 def _flipwalk(G, M, p):
